@@ -8,6 +8,25 @@ let coq_string_of (s : string) : Model.string =
       let b k = (c lsr k) land 1 = 1 in
       Model.String (Model.Ascii (b 0, b 1, b 2, b 3, b 4, b 5, b 6, b 7), go (i + 1))
   in go 0
+(* real-number text of the platform: printf("%.17lg") on the double with the given bit pattern, and
+   stold (longest valid prefix after leading white space) *)
+let fmt_double bits =
+  let s = Printf.sprintf "%.17g" (Model_z.to_float_bits (Zio.to_zt bits)) in
+  List.init (String.length s) (fun i -> Zio.of_zt (Model_z.of_int (Char.code s.[i])))
+let parse_double (bs : 'a list) =
+  let b = Buffer.create 32 in
+  List.iter (fun c -> let v = Model_z.to_int (Zio.to_zt c) in if v >= 0 && v < 256 then Buffer.add_char b (Char.chr v)) bs;
+  let s = Buffer.contents b in
+  let n = String.length s in
+  let i = ref 0 in
+  while !i < n && (s.[!i] = ' ' || (Char.code s.[!i] >= 9 && Char.code s.[!i] <= 13)) do incr i done;
+  let rec try_len l =
+    if l <= 0 then None
+    else match float_of_string_opt (String.sub s !i l) with
+      | Some f when (let c = s.[!i + l - 1] in c <> '_' && c <> ' ') && not (String.contains (String.sub s !i l) '_') -> Some (Zio.of_zt (Model_z.of_float_bits f))
+      | _ -> try_len (l - 1) in
+  try_len (n - !i)
+
 let () =
   let buf = Buffer.create 65536 in
   (try
@@ -18,7 +37,7 @@ let () =
        | [] -> Buffer.add_string buf "\n"
        | op :: args ->
          let zs = List.map Zio.of_string args in
-         (match Model.dispatch (coq_string_of op) zs with
+         (match Model.dispatch2 fmt_double parse_double (coq_string_of op) zs with
           | None -> Buffer.add_string buf "NOOP\n"
           | Some r ->
             Buffer.add_string buf (String.concat " " (List.map Zio.to_string r));
